@@ -79,7 +79,10 @@ func (g *Gen) Int(bits int) int64 {
 // Time returns a UTC instant; whole selects second resolution.
 func (g *Gen) Time(whole bool) time.Time {
 	var sec int64
-	switch g.R.Intn(8) {
+	switch g.R.Intn(9) {
+	case 8:
+		// first-class zero values: the unix epoch itself and its neighbours
+		return time.Unix(int64(g.R.Intn(3)-1), 0).UTC()
 	case 0:
 		return time.Time{}
 	case 1:
